@@ -105,10 +105,10 @@ def judgeQR (impl : String) (na : Nat) (fa : Nat → Fp p) (nb : Nat) (fb : Nat 
         let n := max na (max (q.length + nb) r.length)
         let fq := cD q.toArray
         let fr := cD r.toArray
-        if !agree n fa (fun k => conv fq fb k + fr k) then "bad:a≠q·b+r"
+        if !agree n fa (fun k => conv fq fb k + fr k) then "bad:a!=q*b+r"
         else if !(canonD q && canonD r) then "bad:noncanonical"
         else match degBelow nb fb, degBelow r.length fr with
-          | some db, some dr => if dr < db then "ok" else "bad:deg-r≥deg-b"
+          | some db, some dr => if dr < db then "ok" else "bad:deg-r>=deg-b"
           | some _, none => "ok"
           | none, _ => "bad:zero-divisor"
       | _, _ => "bad:unparseable"
@@ -233,7 +233,7 @@ def runP (p : Nat) (op : String) (args : List String) (impl : String) : Option (
           let rem := fun k => fa k - conv fq fb k
           if !canonD q then "bad:noncanonical"
           else match degBelow b.length fb, degBelow n rem with
-            | some db, some dr => if dr < db then "ok" else "bad:deg(a−q·b)≥deg-b"
+            | some db, some dr => if dr < db then "ok" else "bad:deg(a-q*b)>=deg-b"
             | _, _ => "ok"
     some (oD (divDD a b), pre (canonD a && canonD b) v)
   | "dsdiv", [a, s] => do
@@ -362,7 +362,7 @@ def runP (p : Nat) (op : String) (args : List String) (impl : String) : Option (
         | none => "bad:unparseable"
         | some r =>
           if !canonD r then "bad:noncanonical"
-          else if r.length > D.size then "bad:degree≥size"
+          else if r.length > D.size then "bad:degree>=size"
           else if (specElements D).map (evalFn r.length (cD r.toArray)) == evs then "ok"
           else "bad:values-differ"
     some (shD (interpolate D ev), v)
@@ -378,7 +378,7 @@ def runP (p : Nat) (op : String) (args : List String) (impl : String) : Option (
         | none => "bad:unparseable"
         | some r =>
           if !canonD r then "bad:noncanonical"
-          else if r.length > D.size then "bad:degree≥size"
+          else if r.length > D.size then "bad:degree>=size"
           else if (specElements D).map (evalFn r.length (cD r.toArray)) == (specElements D).map (evalFn a.length fa) then "ok"
           else "bad:values-differ"
     some (m, pre (canonD a) v)
